@@ -22,7 +22,18 @@ OPS_CODE = [('NOP', 0x00), ('LD A,B', 0x78), ('LD (HL),A', 0x77), ('XOR A', 0xAF
             ('RET', 0xC9), ('EX DE,HL', 0xEB), ('ADD A,(HL)', 0x86), ('LD SP,HL', 0xF9), ('EXX', 0xD9)]
 
 
-def gen_word(rng, n, braces=False):
+DOT_WORDS = ('.25', '...more', '..', '...', '.x', '.a.b', '....', '.,', '..z')
+SEMI_WORDS = (';x', ';', ';;', ';note:', ';.')       # ';' opens a comment only once per line: later ones are text
+
+
+def gen_word(rng, n, braces=False, dots=False):
+    if dots and rng.random() < 0.07:
+        # a word that starts with a dot (or consists of two or more dots): text like any other, wherever it stands.
+        # Only a line holding nothing but a single '.' is a paragraph separator, and only the first '.' of a
+        # register continuation line is its marker
+        return rng.choice(DOT_WORDS)
+    if dots and rng.random() < 0.03:
+        return rng.choice(SEMI_WORDS)
     w = []
     for i in range(n):
         r = rng.random()
@@ -35,16 +46,18 @@ def gen_word(rng, n, braces=False):
     s = ''.join(w)
     if s.strip('.') == '':           # a line consisting of '.' is a paragraph separator
         s = 'a' + s[1:]
-    if s[0] in '.@':                 # '.' starts a register continuation line / separator
+    if s[0] in '.@':                 # dot-leading words come from DOT_WORDS only (see above)
         s = 'x' + s[1:]
+    if dots and rng.random() < 0.06:
+        s += rng.choice(('.', '...', '.)', ';', ':'))       # sentence ends
     return s
 
 
-def gen_words(rng, count, widths, braces=False):
+def gen_words(rng, count, widths, braces=False, dots=False):
     out = []
     for _ in range(count):
         n = rng.choice(widths)
-        out.append(gen_word(rng, max(1, n), braces))
+        out.append(gen_word(rng, max(1, n), braces, dots))
     return out
 
 
@@ -96,7 +109,7 @@ def brace_encode(per_instr):
 
 
 def gen_spec(rng, n_entries=3, cfg=None, one_byte_ops=False, long_word_in_comment_line=False, long_words=False,
-             contiguous=False):
+             contiguous=False, dots=True):
     """A random annotated disassembly. `cfg` keys: line_width, instr_width, indent, tab, crlf, min_cw."""
     cfg = dict(cfg or {})
     lw = cfg.setdefault('line_width', 79)
@@ -116,14 +129,12 @@ def gen_spec(rng, n_entries=3, cfg=None, one_byte_ops=False, long_word_in_commen
     label_no = 0
     for e in range(n_entries):
         ent = {'ctl': 'c', 'addr': addr}
-        ent['title'] = split_lines(rng, gen_words(rng, rng.randint(1, 12), dwidths), 2)
-        ent['details'] = [split_lines(rng, gen_words(rng, rng.randint(1, 25), dwidths), 4)
+        ent['title'] = split_lines(rng, gen_words(rng, rng.randint(1, 12), dwidths, dots=dots), 2)
+        ent['details'] = [split_lines(rng, gen_words(rng, rng.randint(1, 25), dwidths, dots=dots), 4)
                           for _ in range(rng.choice((0, 0, 1, 2, 3)))]
         regs = []
         for _ in range(rng.choice((0, 0, 1, 2, 4))):
             prefix = rng.choice(('', '', 'Input', 'Output', 'I', 'O', 'In'))
-            if regs and prefix and regs[-1]['prefix'][:1] == 'O' and prefix[:1] == 'I':
-                prefix = 'Output'   # skool2html groups input registers before output registers
             name = rng.choice(('A', 'B', 'HL', 'DE', 'BC', "A'", 'IX', 'abc'))
             delim = ''
             if rng.random() < 0.25:
@@ -131,10 +142,10 @@ def gen_spec(rng, n_entries=3, cfg=None, one_byte_ops=False, long_word_in_commen
                 # or a bracket pair; the delimiters are not rendered
                 delim = rng.choice(('()', '[]', '//', '||', '""'))
                 name = rng.choice(('B, D', '(HL)', 'HL and DE', 'A', 'x y z'))
-            desc = split_lines(rng, gen_words(rng, rng.randint(0, 14), rwidths), 3)
+            desc = split_lines(rng, gen_words(rng, rng.randint(0, 14), rwidths, dots=dots), 3)
             regs.append({'prefix': prefix, 'name': name, 'delim': delim, 'desc': desc})
         ent['registers'] = regs
-        ent['start'] = [split_lines(rng, gen_words(rng, rng.randint(1, 12), dwidths), 3)
+        ent['start'] = [split_lines(rng, gen_words(rng, rng.randint(1, 12), dwidths, dots=dots), 3)
                         for _ in range(rng.choice((0, 0, 0, 1, 2)))]
         groups = []
         for g in range(rng.randint(1, 5)):
@@ -154,8 +165,12 @@ def gen_spec(rng, n_entries=3, cfg=None, one_byte_ops=False, long_word_in_commen
                 addr += 1
             nwords = rng.choice((0, 0, 1, 2, 3, 6, 10, 18, 30))
             braces = rng.random() < 0.3
-            words = gen_words(rng, nwords, cwidths, braces)
+            words = gen_words(rng, nwords, cwidths, braces, dots)
             if n == 1 and words and words[0].startswith(';'):
+                words[0] = 'x' + words[0]
+            if len(words) == 1 and words[0].strip('.') == '':
+                # a multi-instruction comment made only of dots has its own encoding in control files
+                # (control-files.rst: another dot is prefixed); not generated
                 words[0] = 'x' + words[0]
             # distribute over instructions then over source lines
             per_instr = []
@@ -180,11 +195,11 @@ def gen_spec(rng, n_entries=3, cfg=None, one_byte_ops=False, long_word_in_commen
                 per_instr = [[[]] for _ in range(n)]
             mid = []
             if g > 0 and rng.random() < 0.3:
-                mid = [split_lines(rng, gen_words(rng, rng.randint(1, 12), dwidths), 3)
+                mid = [split_lines(rng, gen_words(rng, rng.randint(1, 12), dwidths, dots=dots), 3)
                        for _ in range(rng.choice((1, 1, 2)))]
             groups.append({'instrs': instrs, 'lines': per_instr, 'mid': mid})
         ent['groups'] = groups
-        ent['end'] = [split_lines(rng, gen_words(rng, rng.randint(1, 12), dwidths), 3)
+        ent['end'] = [split_lines(rng, gen_words(rng, rng.randint(1, 12), dwidths, dots=dots), 3)
                       for _ in range(rng.choice((0, 0, 1, 2)))]
         entries.append(ent)
         addr += 0 if contiguous else rng.choice((0, 0, 3))
@@ -241,6 +256,14 @@ def skool_text(rng, spec, set_directives=True):
                 '@set-indent=%d' % cfg['indent'], '@set-tab=%d' % cfg['tab'], '@set-crlf=%d' % cfg['crlf'],
                 '@set-comment-width-min=%d' % cfg['min_cw']]
 
+    def sec():
+        # an empty comment line separates the sections; trailing white space is not content
+        return rng.choice((';', ';', ';', '; ', ';  ', ';\t'))
+
+    def dot():
+        # a comment line holding a single dot (white space around it is free)
+        return rng.choice(('; .', '; .', '; .', ';.', '; . ', ';  .', ';\t.'))
+
     def comment_lines(lines):
         return ['; ' + join_words(rng, l) for l in lines]
 
@@ -248,7 +271,7 @@ def skool_text(rng, spec, set_directives=True):
         res = []
         for i, p in enumerate(ps):
             if i:
-                res.append('; .')
+                res.append(dot())
             res += comment_lines(p)
         return res
 
@@ -256,10 +279,10 @@ def skool_text(rng, spec, set_directives=True):
         out += comment_lines(ent['title'])
         need_details = ent['details'] or ent['registers'] or ent['start']
         if need_details:
-            out.append(';')
-            out += paragraphs(ent['details']) if ent['details'] else ['; .']
+            out.append(sec())
+            out += paragraphs(ent['details']) if ent['details'] else [dot()]
         if ent['registers'] or ent['start']:
-            out.append(';')
+            out.append(sec())
             if ent['registers']:
                 for r in ent['registers']:
                     head = (r['prefix'] + ':' if r['prefix'] else '') + r['name']
@@ -268,11 +291,11 @@ def skool_text(rng, spec, set_directives=True):
                     lines = r['desc'] or [[]]
                     out.append(('; ' + head + ' ' + join_words(rng, lines[0])).rstrip())
                     for l in lines[1:]:
-                        out.append('; .' + rng.choice(('', ' ')) + join_words(rng, l))
+                        out.append('; .' + rng.choice(('', ' ', '  ')) + join_words(rng, l))
             else:
-                out.append('; .')
+                out.append(dot())
         if ent['start']:
-            out.append(';')
+            out.append(sec())
             out += paragraphs(ent['start'])
         first = True
         for g in ent['groups']:
@@ -481,6 +504,7 @@ class _AsmPage(html.parser.HTMLParser):
         self.cells = []
         self.stack = []
         self.context = []    # enclosing div classes (details / comments)
+        self.regtable = None
 
     def handle_starttag(self, tag, attrs):
         a = dict(attrs)
@@ -489,15 +513,21 @@ class _AsmPage(html.parser.HTMLParser):
             self.context.append(cls)
             self.stack.append((tag, None))
             return
+        if tag == 'table' and cls in ('input', 'output'):
+            self.regtable = cls
         want = (tag, cls) in self.WANT or (tag == 'td' and (cls.startswith('comment-') or cls.startswith('address-')))
         if want:
             cell = [cls, a.get('rowspan'), [], self.context[-1] if self.context else None]
+            if cls in ('register', 'register-desc'):
+                cell[3] = self.regtable          # which of the two register tables the cell is in
             self.cells.append(cell)
             self.stack.append((tag, cell))
         elif tag in ('div', 'td'):
             self.stack.append((tag, None))
 
     def handle_endtag(self, tag):
+        if tag == 'table':
+            self.regtable = None
         if tag in ('div', 'td'):
             while self.stack:
                 t, cell = self.stack.pop()
@@ -549,16 +579,21 @@ def check_html_entry(cells, ent):
     # registers (inputs then outputs)
     regs = []
     while pos + 1 < len(cells) and cells[pos][0] == 'register':
-        regs.append((w(cells[pos][2]), w(cells[pos + 1][2])))
+        regs.append((w(cells[pos][2]), w(cells[pos + 1][2]), cells[pos][3]))
         pos += 2
     mode = 'I'
     ins_, outs_ = [], []
     for r in ent['registers']:
         if r['prefix']:
             mode = r['prefix'].upper()[0]
-        (outs_ if mode == 'O' else ins_).append((r['name'].split(), flat(r['desc'])))
-    if regs != ins_ + outs_:
+        (outs_ if mode == 'O' else ins_).append((r['name'].split(), flat(r['desc']), 'output' if mode == 'O' else 'input'))
+    if [r[:2] for r in regs] != [r[:2] for r in ins_ + outs_]:
         fails.append(('html-register-words', 'entry %d: registers differ: expected %r got %r' % (a, (ins_ + outs_)[:4], regs[:4])))
+    elif regs != ins_ + outs_:
+        # input values and output values are shown in separate tables (prefix beginning with 'O' = output; no prefix =
+        # same table as the previous register)
+        fails.append(('html-register-table', 'entry %d: register in the wrong table (input/output): expected %r got %r'
+                      % (a, [(r[0], r[2]) for r in ins_ + outs_][:6], [(r[0], r[2]) for r in regs][:6])))
     # instructions
     first = True
     for gi, g in enumerate(ent['groups']):
@@ -604,14 +639,45 @@ def check_html_entry(cells, ent):
 # ---------------------------------------------------------------------------------------------
 # control files and sna2skool output
 
-def ctl_text(spec):
-    """Control file expressing `spec` (entries with one-byte instructions)."""
+def pack_lines(words, width):
+    """Greedy packing of words into lines of at most `width` characters (a longer word gets a line of its own)."""
+    lines, cur = [], ''
+    for w in words:
+        if cur and len(cur) + 1 + len(w) > width:
+            lines.append(cur)
+            cur = w
+        else:
+            cur = cur + ' ' + w if cur else w
+    if cur:
+        lines.append(cur)
+    return lines
+
+
+def ctl_text(spec, rng=None):
+    """Control file expressing `spec` (entries with one-byte instructions).  With `rng`, some comments are written
+    with dot directives (control-files.rst, 'The dot and colon directives'): the text of a D/N/E directive, or of a C
+    directive (one '.' line per instruction, further lines of the same instruction with ':'), is given on the lines
+    that follow it and is copied line by line instead of being wrapped."""
     out = []
+    lw = spec['cfg'].get('line_width', 79)
+
+    def dotted(words):
+        # lines short enough to fit whatever sna2skool puts in front of them
+        return rng is not None and words and rng.random() < 0.25
+
+    def para(d, a, p):
+        words = flat(p)
+        if dotted(words):
+            out.append('%s %05d' % (d, a))
+            for l in pack_lines(words, rng.choice((20, 40, lw - 3))):
+                out.append('. ' + l)
+        else:
+            out.append('%s %05d %s' % (d, a, ' '.join(words)))
     for ent in spec['entries']:
         a = ent['addr']
         out.append('%s %05d %s' % (ent['ctl'], a, ' '.join(flat(ent['title']))))
         for p in ent['details']:
-            out.append('D %05d %s' % (a, ' '.join(flat(p))))
+            para('D', a, p)
         for r in ent['registers']:
             head = (r['prefix'] + ':' if r['prefix'] else '') + r['name']
             if r.get('delim'):
@@ -621,11 +687,22 @@ def ctl_text(spec):
         for g in ent['groups']:
             ga = g['instrs'][0]['addr']
             for p in (ent['start'] if first else g['mid']):
-                out.append('N %05d %s' % (ga, ' '.join(flat(p))))
+                para('N', ga, p)
             first = False
-            out.append(('C %05d,%d %s' % (ga, len(g['instrs']), ' '.join(group_words(g)))).rstrip())
+            words = group_words(g)
+            per = [flat(ls) for ls in g['lines']]
+            if dotted(words) and all(per) and not any('{' in w or '}' in w for w in words) \
+                    and not (len(words) == 1 and words[0].strip('.') == ''):
+                # one '.' line per instruction (the instruction's first line), ':' for its further lines
+                out.append('C %05d,%d' % (ga, len(g['instrs'])))
+                cw = max(10, lw - 40)
+                for ws in per:
+                    for i, l in enumerate(pack_lines(ws, cw)):
+                        out.append(('. ' if i == 0 else ': ') + l)
+            else:
+                out.append(('C %05d,%d %s' % (ga, len(g['instrs']), ' '.join(words))).rstrip())
         for p in ent['end']:
-            out.append('E %05d %s' % (a, ' '.join(flat(p))))
+            para('E', a, p)
     last = spec['entries'][-1]
     end = last['groups'][-1]['instrs'][-1]['addr'] + 1
     out.append('i %05d' % end)
@@ -827,9 +904,9 @@ def gen_blocks_case(rng):
 
     def ws(lo, hi):
         # '=' starts cell flags, '|' separates cells: not used inside block words
-        return [w.replace('=', 'e').replace('|', 'l') for w in gen_words(rng, rng.randint(lo, hi), short)]
+        return [w.replace('=', 'e').replace('|', 'l') for w in gen_words(rng, rng.randint(lo, hi), short, dots=True)]
     title = ws(1, 6)
-    intro, outro = ws(0, 6), ws(0, 6)
+    intro, outro = ws(0, rng.choice((6, 6, 40))), ws(0, rng.choice((6, 6, 40)))     # text around the block wraps like any other
     items = [ws(1, rng.choice((3, 8, 25))) for _ in range(rng.randint(1, 4))]
     lflag = rng.choice(('', '', '<nowrap>', '<wrapalign>'))
     ncols = rng.randint(1, 3)
@@ -855,7 +932,7 @@ def gen_blocks_case(rng):
             ttoks += cell
         ttoks.append('}')
     ttoks.append('TABLE#')
-    return {'lw': lw, 'title': title, 'intro': intro, 'outro': outro, 'items': items, 'rows': rows, 'header': header,
+    return {'lw': lw, 'title': title, 'intro': intro, 'outro': outro, 'items': items, 'rows': rows, 'header': header, 'wrapcol': wrapcol,
             'ltoks': ltoks, 'ttoks': ttoks, 'lflag': lflag, 'tflag': tflag}
 
 
@@ -915,6 +992,16 @@ def check_blocks_asm(out, err, case):
         fails.append(('asm-table-no-warning', 'table is %d characters wide (text width %d) and skool2asm does not warn' % (tw, lw - 2)))
     if warned and not too_wide:
         fails.append(('asm-table-spurious-warning', 'table warning although the table is %d wide (text width %d)' % (tw, lw - 2)))
+    if too_wide:
+        # a table may exceed the text width only if it cannot fit: the columns at their natural widths, the wrapped
+        # column (if any) at the larger of the minimum column width (10) and its longest word
+        nat = [max(len(' '.join(row[j])) for row in case['rows']) for j in range(ncols)]
+        if case.get('wrapcol'):
+            nat[-1] = max(10, max(len(w) for row in case['rows'] for w in row[-1]))
+        fit = 3 * (ncols + 1) - 2 + sum(nat)
+        if tw > max(fit, lw - 2):
+            fails.append(('asm-table-wider-than-needed', 'table is %d characters wide although it fits in %d (text width %d) when its last column is wrapped'
+                          % (tw, max(fit, lw - 2), lw - 2)))
     for l in com:
         if len(l) > lw and not (too_wide and l in [';' + x for x in secs[2]]):
             fails.append(('asm-blocks-line-too-wide', 'line of %d chars (width %d): %r' % (len(l), lw, l[:100])))
@@ -985,3 +1072,234 @@ def closing_boundary_spec(line_width):
     return {'cfg': {'line_width': line_width}, 'entries': [{
         'ctl': 'c', 'addr': 32768, 'title': [['Closing', 'brace', 'boundary']], 'details': [], 'registers': [],
         'start': [], 'end': [], 'groups': groups}]}
+
+
+def dot_words_spec(line_width, ctl=False):
+    """Deterministic group: words that start with a dot ('.25', '...more', a word of dots only) at the start of
+    every kind of source line — register description lines and their '.' continuation lines (with and without
+    white space after the marker dot), title / description / start / mid-block / end comment lines and
+    instruction comment lines and continuation lines.  For the control-file route (`ctl=True`, where sna2skool
+    chooses the line breaks) the register descriptions and paragraphs instead push a dot-leading word across the
+    wrap boundary: a filler word of every length around the text width, then the dot-leading word."""
+    dw = line_width - 2
+    DOT_WORDS = globals()['DOT_WORDS'] + SEMI_WORDS       # (a ';' after the first one of a line is text, too)
+    addr = 32768
+    entries = []
+    if not ctl:
+        regs = []
+        for i, dot in enumerate(DOT_WORDS):
+            regs.append({'prefix': ('', 'Input')[i % 2] if i < 5 else ('O', '')[i % 2], 'name': ('A', 'HL', 'xy')[i % 3], 'delim': '',
+                         'desc': [['first', 'line'], [dot, 'after', 'marker'], [dot], ['tail', dot], [dot, dot]]})
+        regs.append({'prefix': '', 'name': 'B', 'delim': '', 'desc': [[DOT_WORDS[0], 'leads', 'the', 'first', 'line'], ['...']]})
+        groups = []
+        for i, dot in enumerate(DOT_WORDS):
+            n = 1 + i % 3
+            instrs = [{'addr': addr + j, 'op': 'NOP', 'label': None} for j in range(n)]
+            addr += n
+            lines = [[[dot, 'on', 'the', 'instruction', 'line'], [dot, 'continued'], [dot]]] + [[[dot, 'row', str(j)], [dot]] for j in range(1, n)]
+            groups.append({'instrs': instrs, 'lines': lines, 'mid': [[[dot, 'mid'], [dot], ['x', dot]], [[dot]]] if i else []})
+        paras = [[[dot, 'para'], [dot], ['end', dot]] for dot in DOT_WORDS[:4]]
+        entries.append({'ctl': 'c', 'addr': 32768, 'title': [[DOT_WORDS[0], 'title'], [DOT_WORDS[1]]], 'details': paras,
+                        'registers': regs, 'start': [[[d, 'start']] for d in DOT_WORDS[2:5]], 'groups': groups,
+                        'end': [[[d, 'end'], [d]] for d in DOT_WORDS[1:4]]})
+    else:
+        k0 = line_width - 30
+        regs = []
+        for i, k in enumerate(range(k0, dw + 2)):
+            dot = DOT_WORDS[i % len(DOT_WORDS)]
+            regs.append({'prefix': ('', 'I')[i % 2] if 2 * i < dw + 2 - k0 else ('Output', '')[i % 2], 'name': ('A', 'BC', 'abc')[i % 3], 'delim': '',
+                         'desc': [['w' * k, dot, 'more', dot, 'v' * k, dot]]})
+        paras = [[['u' * k, DOT_WORDS[k % len(DOT_WORDS)], 'z' * k, DOT_WORDS[(k + 1) % len(DOT_WORDS)], 'q']] for k in range(dw - 6, dw + 1)]
+        groups = []
+        for i, dot in enumerate(DOT_WORDS):
+            n = 1 + i % 3
+            instrs = [{'addr': addr + j, 'op': 'NOP', 'label': None} for j in range(n)]
+            addr += n
+            groups.append({'instrs': instrs, 'lines': [[[dot, 'c' * (line_width - 40), dot, 'd' * 20, dot]]] + [[[]] for _ in range(n - 1)],
+                           'mid': [[[dot, 'm' * (dw - 8), dot, 'n']]] if i else []})
+        entries.append({'ctl': 'c', 'addr': 32768, 'title': [[DOT_WORDS[0], 'title', DOT_WORDS[1]]], 'details': paras, 'registers': regs,
+                        'start': [[[DOT_WORDS[2], 's' * (dw - 5), DOT_WORDS[3]]]], 'groups': groups,
+                        'end': [[[DOT_WORDS[1], 'e' * (dw - 4), DOT_WORDS[4], 'x']]]})
+    cfg = {'line_width': line_width, 'instr_width': 23, 'indent': 2, 'tab': 0, 'crlf': 0, 'min_cw': 10}
+    return {'cfg': cfg, 'entries': entries}
+
+
+def long_text_spec(line_width):
+    """Deterministic group: annotations that wrap to very many lines (one word per line for 60-150 lines) in every
+    place: description paragraph, register description, start / mid-block / end comments, instruction comments
+    over 1 and 3 instructions."""
+    dw = line_width - 2
+    cw = line_width - 28
+
+    def ws(n, k, tag):
+        return ['%s%d%s' % (tag, i, 'x' * max(1, k - len(str(i)) - len(tag))) for i in range(n)]
+    g1 = {'instrs': [{'addr': 32768, 'op': 'NOP', 'label': None}], 'lines': [[ws(70, cw // 2 + 1, 'c')]], 'mid': []}
+    g2 = {'instrs': [{'addr': 32769 + j, 'op': 'NOP', 'label': None} for j in range(3)],
+          'lines': [[ws(30, cw // 2 + 1, 'd')], [[]], [ws(45, cw // 2 + 2, 'e')]], 'mid': [[ws(90, dw // 2 + 1, 'm')]]}
+    many = [[['para%d' % i, 'of', 'many']] for i in range(14)]
+    g2['mid'] += [[['mid%d' % i]] for i in range(11)]
+    ent = {'ctl': 'c', 'addr': 32768, 'title': [['Long', 'texts']], 'details': [[ws(150, dw // 2 + 1, 'p')], [ws(61, dw // 2 + 3, 'q')]] + many,
+           'registers': [{'prefix': '', 'name': 'HL', 'delim': '', 'desc': [ws(64, (dw - 4) // 2 + 1, 'r')]}],
+           'start': [[ws(80, dw // 2 + 1, 's')]] + [[['start%d' % i]] for i in range(10)], 'groups': [g1, g2],
+           'end': [[ws(100, dw // 2 + 1, 'z')]] + [[['end%d' % i, 'x']] for i in range(12)]}
+    cfg = {'line_width': line_width, 'instr_width': 23, 'indent': 2, 'tab': 0, 'crlf': 0, 'min_cw': 10}
+    return {'cfg': cfg, 'entries': [ent]}
+
+
+def gen_span_table_case(rng):
+    """A #TABLE whose cells span rows and columns (=cN, =rN, header and transparent flags), every word unique, so
+    that 'each word exactly once, in order within its cell' can be checked whatever the layout."""
+    ncols, nrows = rng.randint(2, 4), rng.randint(2, 4)
+    free = [[True] * ncols for _ in range(nrows)]
+    rows, cells = [], []
+    starts, ends = [], []
+    wid = 0
+    wrapcol = rng.random() < 0.4
+    for r in range(nrows):
+        row = []
+        c = 0
+        while c < ncols:
+            if not free[r][c]:
+                c += 1
+                continue
+            maxc = 1
+            while c + maxc < ncols and free[r][c + maxc]:
+                maxc += 1
+            cs = rng.choice([1, 1, 1] + list(range(1, maxc + 1)))
+            # column 0 never spans rows, so that every row has a cell of its own (a well-formed table)
+            rs = rng.choice([1, 1, 1] + list(range(1, nrows - r + 1))) if c else 1
+            starts.append(c)
+            ends.append(c + cs)
+            for y in range(r, r + rs):
+                for x in range(c, c + cs):
+                    free[y][x] = False
+            nw = rng.choice((1, 1, 2, 3)) if not (wrapcol and c + cs == ncols) else rng.choice((1, 4, 12, 25))
+            words = []
+            for _ in range(nw):
+                words.append('w%d%s' % (wid, ''.join(rng.choice(LETTERS) for _ in range(rng.choice((0, 1, 3, 6))))))
+                wid += 1
+            flags = []
+            if cs > 1:
+                flags.append('c%d' % cs)
+            if rs > 1:
+                flags.append('r%d' % rs)
+            if r == 0 and rng.random() < 0.5:
+                flags.append('h')
+            if rng.random() < 0.1:
+                flags.append('t')
+            rng.shuffle(flags)
+            row.append({'flags': flags, 'words': words})
+            cells.append(words)
+            c += cs
+        rows.append(row)
+    lw = rng.choice((60, 79, 100))
+    params = 'default' + ''.join(',' + (':w' if (wrapcol and c == ncols - 1) else '') for c in range(ncols))
+    ttoks = ['#TABLE(%s)' % params]
+    for row in rows:
+        if not row:
+            continue                 # a row fully covered by cells spanning from above has no definition of its own
+        ttoks.append('{')
+        for j, cell in enumerate(row):
+            if j:
+                ttoks.append('|')
+            if cell['flags']:
+                ttoks.append('=' + ','.join(cell['flags']))
+            ttoks += cell['words']
+        ttoks.append('}')
+    ttoks.append('TABLE#')
+    # 'short': no cell *starts* in the last column (it is reached through colspans only)
+    return {'lw': lw, 'cells': cells, 'ttoks': ttoks, 'title': ['Span', 'table'], 'short': max(ends) > max(starts) + 1}
+
+
+SHORT_TABLE_CASE = {'lw': 79, 'cells': [['a'], ['bbbbbbbbbbbbb'], ['c'], ['d'], ['e']], 'title': ['Span', 'table'], 'short': True,
+                    'ttoks': ['#TABLE(default)', '{', 'a', '|', '=c3', 'bbbbbbbbbbbbb', '}', '{', 'c', '|', 'd', '|', '=c2', 'e', '}', 'TABLE#']}
+
+
+def span_table_skool(rng, case):
+    out = ['@start', '@set-line-width=%d' % case['lw'], '; ' + ' '.join(case['title']), ';']
+    for l in split_lines(rng, case['ttoks'], 4):
+        out.append('; ' + ' '.join(l))
+    out.append('c32768 RET')
+    return '\n'.join(out) + '\n'
+
+
+def check_span_table_asm(out, case):
+    lines = [l[1:] for l in out.replace('\r\n', '\n').split('\n') if l.startswith(';')]
+    secs = [[]]
+    for l in lines:
+        if l == '':
+            secs.append([])
+        else:
+            secs[-1].append(l)
+    if len(secs) != 2:
+        return [('asm-blocks-structure', 'expected title + 1 paragraph, got %d sections' % len(secs))]
+    toks = [t for l in secs[1] for t in l.split() if t.strip('+-|=')]
+    return _span_words(toks, case, 'asm')
+
+
+def _span_words(toks, case, tool):
+    fails = []
+    exp = [w for c in case['cells'] for w in c]
+    if sorted(toks) != sorted(exp):
+        missing = [w for w in exp if toks.count(w) < 1]
+        dup = sorted({w for w in toks if toks.count(w) > 1})
+        extra = [w for w in toks if w not in exp]
+        fails.append((tool + '-table-words', '#TABLE with spans: words missing %r, duplicated %r, unexpected %r (definition %r)'
+                      % (missing[:8], dup[:8], extra[:8], ' '.join(case['ttoks'])[:200])))
+    else:
+        for c in case['cells']:
+            pos = [toks.index(w) for w in c]
+            if pos != sorted(pos):
+                fails.append((tool + '-table-words', '#TABLE with spans: words of cell %r out of order (definition %r)' % (c, ' '.join(case['ttoks'])[:200])))
+                break
+    return fails
+
+
+def check_span_table_html(page, case):
+    cells = parse_html_entry(page)
+    paras = [c[2].split() for c in cells if c[0] == 'paragraph' and c[3] == 'details']
+    if len(paras) != 1:
+        return [('html-blocks-words', 'expected one description paragraph, got %d' % len(paras))]
+    return _span_words(paras[0], case, 'html')
+
+
+def span_table_ctl(case):
+    return 'c 32768 %s\nD 32768 %s\ni 32769\n' % (' '.join(case['title']), ' '.join(case['ttoks']))
+
+
+def check_span_table_skool(out, case):
+    ents = parse_skool_entries(out)
+    if len(ents) != 1:
+        return [('skool-blocks-structure', '%d entries' % len(ents))]
+    h = ents[0]['header'] + [[], []]
+    ps = paragraphs_of(h[1])
+    if ps != [case['ttoks']]:
+        return [('skool-blocks-words', 'description with a #TABLE with spans differs: expected %r got %r' % (case['ttoks'][:40], [p[:40] for p in ps]))]
+    return []
+
+
+def exact_fit_table_case(lw=79):
+    """A #TABLE whose minimum layout (wrapped column at the minimum column width of 10) fills the text width exactly:
+    the wrapped column must stay at 10 and the table must not grow beyond the text width."""
+    w1 = lw - 2 - 7 - 10
+    rows = [[['k' * w1], ['wrapped', 'text'] + ['w%d' % i for i in range(30)]], [['key'], ['short']]]
+    ttoks = ['#TABLE(default,,:w)']
+    for row in rows:
+        ttoks += ['{'] + row[0] + ['|'] + row[1] + ['}']
+    ttoks.append('TABLE#')
+    return {'lw': lw, 'title': ['Exact', 'fit'], 'intro': [], 'outro': [], 'items': [['item']], 'rows': rows, 'header': False, 'wrapcol': True,
+            'ltoks': ['#LIST', '{', 'item', '}', 'LIST#'], 'ttoks': ttoks, 'lflag': '', 'tflag': ''}
+
+
+def sentence_ends_blocks_case(lw=79):
+    """#LIST and #TABLE with the <wrapalign> flag whose every word ends in a full stop, so that whatever the wrap
+    points are, each wrapped line ends (and the next one starts) at a sentence end."""
+    items = [['i%d.' % i for i in range(40)], ['short.', 'item...']]
+    rows = [[['key.'], ['t%d.' % i for i in range(45)]], [['k2...'], ['u%d.)' % i for i in range(30)]]]
+    ltoks = ['intro.', '#LIST<wrapalign>'] + [t for it in items for t in ['{'] + it + ['}']] + ['LIST#', 'outro.']
+    ttoks = ['#TABLE(default,,:w)<wrapalign>']
+    for row in rows:
+        ttoks += ['{'] + row[0] + ['|'] + row[1] + ['}']
+    ttoks.append('TABLE#')
+    return {'lw': lw, 'title': ['Sentence', 'ends.'], 'intro': ['intro.'], 'outro': ['outro.'], 'items': items, 'rows': rows, 'header': False,
+            'wrapcol': True, 'ltoks': ltoks, 'ttoks': ttoks, 'lflag': '<wrapalign>', 'tflag': '<wrapalign>'}
